@@ -118,4 +118,98 @@ Fixpoint present (n : fnode) (v : avalue) {struct v} : sval :=
       STuple [SInt false W32 (Z.of_N a); SInt false W32 (Z.of_N b); SInt false W32 (Z.of_N c)]
   end.
 
+(* the ordinary Rust data type for a node: struct per record, enum per union (Option for
+   [null,T] / [T,null]), unit enum per Avro enum, Vec, string-keyed map, str/bytes.
+   Recursive schemas are unfolded [fuel] levels. *)
+Fixpoint typed_target (fuel : nat) (n : fnode) : dtarget :=
+  match fuel with
+  | O => TAny
+  | S f =>
+    let at_key (k : nat) : dtarget :=
+      match fnode_at Sc k with Some n' => typed_target f n' | None => TAny end in
+    match n with
+    | FNull => THint HUnit
+    | FBoolean => THint HBool
+    | FInt | FDate | FTimeMillis => THint HI32
+    | FLong | FTimeMicros | FTimestampMillis | FTimestampMicros => THint HI64
+    | FFloat => THint HF32
+    | FDouble => THint HF64
+    | FBytes | FFixed _ _ => THint HBytes
+    | FString | FUuid => THint HStr
+    | FArray k => TSeq (at_key k)
+    | FMap k => TMap (THint HStr) (at_key k)
+    | FUnion ks =>
+        let is_null (k : nat) := match fnode_at Sc k with Some FNull => true | _ => false end in
+        match ks with
+        | [a; b0] =>
+            if is_null a && negb (is_null b0) then TOption (at_key b0)
+            else if is_null b0 && negb (is_null a) then TOption (at_key a)
+            else TEnum (str_lit "U")
+                       (map (fun k => match fnode_at Sc k with
+                                      | Some FNull => (type_name FNull, TVUnit)
+                                      | Some n' => (type_name n', TVNewtype (typed_target f n'))
+                                      | None => ([], TVUnit)
+                                      end) ks)
+        | _ => TEnum (str_lit "U")
+                     (map (fun k => match fnode_at Sc k with
+                                    | Some FNull => (type_name FNull, TVUnit)
+                                    | Some n' => (type_name n', TVNewtype (typed_target f n'))
+                                    | None => ([], TVUnit)
+                                    end) ks)
+        end
+    | FRecord nm fields => TStruct (nm_full nm) (map (fun fk => (fst fk, at_key (snd fk))) fields)
+    | FEnum nm syms => TEnum (nm_full nm) (map (fun s => (s, TVUnit)) syms)
+    | FDecimal _ _ _ | FBigDecimal => THint HStr
+    | FDuration => TTuple [THint HU32; THint HU32; THint HU32]
+    end
+  end.
+
+Fixpoint dval_typed (n : fnode) (v : avalue) {struct v} : dval :=
+  let at_key (k : nat) (v' : avalue) : dval :=
+    match fnode_at Sc k with Some n' => dval_typed n' v' | None => DMissing end in
+  match v with
+  | AArray vs => match n with FArray k => DSeq (map (at_key k) vs) | _ => DMissing end
+  | AMap kvs => match n with FMap k => DMap (map (fun kv => (DStr (fst kv), at_key k (snd kv))) kvs) | _ => DMissing end
+  | AUnion i v' =>
+      match n with
+      | FUnion ks =>
+          let is_null (k : nat) := match fnode_at Sc k with Some FNull => true | _ => false end in
+          let as_option :=
+            match ks with
+            | [a; b0] => (is_null a && negb (is_null b0)) || (is_null b0 && negb (is_null a))
+            | _ => false
+            end in
+          match nth_error ks i with
+          | Some k =>
+              match fnode_at Sc k with
+              | Some n' =>
+                  if as_option then
+                    match n' with FNull => DNone | _ => DSome (dval_typed n' v') end
+                  else
+                    match n' with
+                    | FNull => DEnum (type_name FNull) DUnit
+                    | _ => DEnum (type_name n') (dval_typed n' v')
+                    end
+              | None => DMissing
+              end
+          | None => DMissing
+          end
+      | _ => DMissing
+      end
+  | ARecord vs =>
+      match n with
+      | FRecord _ fields =>
+          DStruct ((fix go (fields : list (bytes * nat)) (vs : list avalue) {struct vs} : list (bytes * dval) :=
+                      match fields, vs with
+                      | (f, k) :: fr, v' :: vr => (f, at_key k v') :: go fr vr
+                      | _, _ => []
+                      end) fields vs)
+      | _ => DMissing
+      end
+  | AEnum i => match n with FEnum _ syms => DEnum (nth i syms []) DUnit | _ => DMissing end
+  | ADuration a b0 c =>
+      DSeq [DInt false W32 (Z.of_N a); DInt false W32 (Z.of_N b0); DInt false W32 (Z.of_N c)]
+  | other => dval_any n other
+  end.
+
 End Den.
